@@ -320,6 +320,35 @@ def evaluate(case):
             else:
                 ev.add("index-report-cells-differ", {"missing_from_report": list((want_ix - got_ix).items())[:5],
                                                      "not_in_reference": list((got_ix - want_ix).items())[:5]})
+    # joint uniqueness: one entry per (key column, offending row) carrying the row's label and the cell
+    if not series:
+        want_j = Counter()
+        skip_j = False
+        for e in ref.errors:
+            if e.reason != "DUPLICATES" or e.rows is None:
+                continue
+            subset = e.check[1] if isinstance(e.check, tuple) and len(e.check) > 1 else ()
+            for c in subset:
+                tc = tcols.get(c)
+                if tc is None:
+                    skip_j = True
+                    continue
+                for i in e.rows:
+                    v = tc["cells"][i]
+                    if v is None:
+                        skip_j = True  # (null key cells are dropped from the report: recorded finding, not scored here)
+                    days = tc.get("phys") == "datetime64[ns]"
+                    want_j[(repr(c) if not spec.get("int_labels") else repr(c), labels[i], ("n", float(v)) if days and v is not None else norm_value(v))] += 1
+        got_j = Counter()
+        for (ctx, col, cid, lab, val), k in rep.items():
+            if ctx == "DataFrameSchema" and lab is not None and isinstance(cid, tuple) and cid[0] == "other" \
+                    and str(cid[1]).startswith("multiple_fields_uniqueness"):
+                got_j[(repr(col), lab, val)] += k
+        if (want_j or got_j) and not skip_j:
+            ev.labels.append("joint-unique-report-compared")
+            if want_j != got_j:
+                ev.add("joint-uniqueness-report-cells-differ", {"missing_from_report": list((want_j - got_j).items())[:5],
+                                                                "not_in_reference": list((got_j - want_j).items())[:5]})
     # frame-level scalar entries
     rep_frame = Counter()
     for (ctx, col, cid, lab, val), k in rep.items():
